@@ -18,6 +18,7 @@ import (
 	netmail "net/mail"
 	"strings"
 	"time"
+	"unicode/utf8"
 
 	mail "github.com/wneessen/go-mail"
 	"verif/harness/addrx"
@@ -168,7 +169,23 @@ func apply(m *mail.Msg, o op) (ok bool, known bool) {
 	return err == nil, true
 }
 
-func formatAddr(name, addr string) string { return fmt.Sprintf(`"%s" <%s>`, name, addr) }
+// formatAddr: the address string a ...Format(name, addr) call denotes — the name as an RFC 5322 quoted-string
+// (backslash and double quote as quoted-pairs), the address in angle brackets.
+func formatAddr(name, addr string) string { return addrx.QuoteName(name) + " <" + addr + ">" }
+
+// nameCarriable: every byte of the name can stand in an RFC 5322 / 6532 quoted-string (TAB, SP, printable ASCII,
+// valid UTF-8); CR, LF, NUL, the other C0 controls and DEL cannot.
+func nameCarriable(n string) bool {
+	if !utf8.ValidString(n) {
+		return false
+	}
+	for i := 0; i < len(n); i++ {
+		if b := n[i]; !(b == 9 || b >= 32 && b <= 126 || b >= 128) {
+			return false
+		}
+	}
+	return true
+}
 
 // fromStringPieces mirrors the documented behaviour of ...FromString (comma separated, trimmed,
 // empty pieces dropped) — only used to know which strings the model may ask the parse oracle about;
@@ -330,6 +347,15 @@ func runCase(r *hx.Run, c hx.Case) {
 		}
 		r.Dist["setter:"+o.name]++
 		trackShadow(shadow, unknown, o, fam, key, ok)
+		if (fam == "Format" || fam == "AddFormat") && len(o.args) == 2 {
+			bare, perr := netmail.ParseAddress("<" + o.args[1] + ">")
+			switch {
+			case !nameCarriable(o.args[0]) && ok:
+				r.Fail(c.ID, "format-accepts-name-no-quoted-string-can-hold", fmt.Sprintf("op %d %s(%q, %q) succeeded", i, o.name, o.args[0], o.args[1]))
+			case nameCarriable(o.args[0]) && perr == nil && bare.Name == "" && !ok && !strings.ContainsAny(o.args[1], "<>"):
+				r.Fail(c.ID, "format-rejects-valid-name", fmt.Sprintf("op %d %s(%q, %q) failed", i, o.name, o.args[0], o.args[1]))
+			}
+		}
 		// reference semantics of the append setters (direct oracle): a valid address is appended,
 		// exactly once, and nothing already stored changes; an invalid one changes nothing
 		if fam == "Add" || fam == "AddFormat" {
@@ -338,7 +364,11 @@ func runCase(r *hx.Run, c hx.Case) {
 				v = formatAddr(o.args[0], o.args[1])
 			}
 			after := m.GetAddrHeader(hdrOf[key])
-			if a, err := netmail.ParseAddress(v); err == nil {
+			a, err := netmail.ParseAddress(v)
+			if err == nil && fam == "AddFormat" {
+				a = &netmail.Address{Name: o.args[0], Address: a.Address} // the arguments themselves
+			}
+			if err == nil {
 				if !ok || !sameAddrs(after, append(append([]*netmail.Address(nil), before...), a)) {
 					r.Fail(c.ID, "add-does-not-append-one", fmt.Sprintf("op %d %s(%q): list before %s, after %s, ok=%v", i, o.name, v, addrListString(before), addrListString(after), ok))
 				}
@@ -621,6 +651,7 @@ var keyOfHeader = map[string]string{"To": "To", "Cc": "Cc", "Bcc": "Bcc", "From"
 // trackShadow applies the reference semantics of one call to the bookkeeping.
 func trackShadow(shadow map[string][]wantAddr, unknown map[string]bool, o op, fam, key string, ok bool) {
 	var vals []string
+	var rawName *string // ...Format calls: the display name set is the name argument itself
 	switch fam {
 	case "Set", "":
 		vals = o.args
@@ -630,6 +661,7 @@ func trackShadow(shadow map[string][]wantAddr, unknown map[string]bool, o op, fa
 			return
 		}
 		vals = []string{formatAddr(o.args[0], o.args[1])}
+		rawName = &o.args[0]
 	case "Add":
 		vals = o.args
 	case "SetAddrHeader":
@@ -656,6 +688,9 @@ func trackShadow(shadow map[string][]wantAddr, unknown map[string]bool, o op, fa
 		if !readable {
 			unknown[key] = true
 			return
+		}
+		if rawName != nil {
+			w.name = *rawName
 		}
 		l = append(l, w)
 	}
@@ -767,6 +802,7 @@ func (g *gen) addrs(max int) []string {
 }
 
 var formatNames = []string{"Plain Name", "Doe, John", "Jürgen Müller", "quo\"te", "back\\slash", "", "a <b> c", "日本",
+	"C:\\dir\\file", "say \"hi\" \\ \"bye\"", "end\\", "\"", "\\\"", "a\\\\b", "ctl\x01x", "cr\rlf\n", "del\x7f", "nul\x00",
 	"Jean\tLuc", "Jean\u00a0Luc", "zw\u200cnj", "zw\u200dj x", "soft\u00adhyphen", "lrm\u200e (x), y", "rlm\u200f", "line\u2028sep"}
 
 // hardAddr: a plain, unique mailbox under a display name that is hard to re-serialise
@@ -871,13 +907,21 @@ func Run(r *hx.Run, replay []hx.Case) {
 	} {
 		runCase(r, hx.Case{ID: r.NewID(), Kind: "seq", Args: []string{opsString(ops)}})
 	}
+	// ...Format setters: backslashes, double quotes, control characters in the name argument
+	for _, fn := range []string{`C:\dir\file`, `say "hi"`, `end\`, `"`, `\"`, "ctl\x01x", "cr\r\nX-Injected: 1", "Tab\tName", "plain"} {
+		runCase(r, hx.Case{ID: r.NewID(), Kind: "seq", Args: []string{opsString([]op{
+			{"FromFormat", []string{fn, "from@x.test"}}, {"To", []string{"first@x.test"}}, {"AddToFormat", []string{fn, "second@x.test"}},
+			{"AddTo", []string{"third@x.test"}}, {"ReplyToFormat", []string{fn, "reply@x.test"}}, {"EnvelopeFromFormat", []string{fn, "bounce@x.test"}},
+			{"AddCcFormat", []string{fn, "cc1@x.test"}}, {"AddCcFormat", []string{"Second " + fn, "cc2@x.test"}}, {"AddBccFormat", []string{fn, "bcc@y.test"}},
+		})}})
+	}
 	// every hard display name once: Set, then Add and AddFormat on the same header
 	for i, hn := range addrx.HardNames {
 		runCase(r, hx.Case{ID: r.NewID(), Kind: "seq", Args: []string{opsString([]op{
 			{"From", []string{"sender@origin.test"}},
 			{"To", []string{addrx.QuoteName(hn) + " <first@x.test>", "plain@x.test"}},
 			{"AddTo", []string{"Second <second@x.test>"}},
-			{"AddToFormat", []string{formatNames[8+i%8], "third@x.test"}},
+			{"AddToFormat", []string{formatNames[18+i%8], "third@x.test"}},
 			{"Cc", []string{mime.QEncoding.Encode("utf-8", hn) + " <cc1@x.test>"}},
 			{"AddCcFormat", []string{"Plain Name", "cc2@x.test"}},
 			{"AddCc", []string{mime.BEncoding.Encode("utf-8", hn) + " <cc3@x.test>"}},
